@@ -5,6 +5,8 @@
 //!                                                   poll script and of the SYNC reader, both against the model
 //!   ardr   <file> <frames> <index> <ops> <mode> <seed> <workers> <pool> <segs>   (c16_model_rw.rs) op history of
 //!          the real sync and async bgzf readers vs NV.Bgzf.ReaderOps / the pipeline model NV.Async.Reader
+//!   awr    <ops> <mode> <seed> <workers> <pool> <level>   (c16_model_rw.rs) block sequence + write amounts of the real
+//!          sync and async bgzf writers vs NV.Async.Writer (a_blocks / a_results)
 //! Implementation-only differential oracles (sync path vs async path on the same input, under a
 //! poll script): see `c16_fmt.rs` for the format-level kinds.
 //!   bgzfr  <file> <ops> <mode> <seed> <workers>     bgzf reader op transcript (bytes, vpos, seek)
@@ -894,6 +896,10 @@ fn generate(rng: &mut Rng, tier: &str, w: &mut CaseWriter) {
     for i in 0..n {
         c16_model_rw::gen_ardr(rng, w, i % 12 == 0);
     }
+    let n = if thorough { 2000 } else { 150 };
+    for i in 0..n {
+        c16_model_rw::gen_awr(rng, w, i % 6 == 0);
+    }
     c16_fmt::generate(rng, tier, w);
 }
 
@@ -903,6 +909,7 @@ fn run(c: &Case) -> Obs {
         "bgzfr" => run_bgzfr(c),
         "bgzfw" => run_bgzfw(c),
         "ardr" => c16_model_rw::run_ardr(c),
+        "awr" => c16_model_rw::run_awr(c),
         k => match c16_fmt::run(c) {
             Some(o) => o,
             None => Obs::fail("-", "harness-unknown-kind", k),
